@@ -425,7 +425,7 @@ func TestPropQueryCollection(t *testing.T) {
 				// (RebuildIndexes is an administrative operation the property does not speak about: not generated)
 				K:  rapid.SampledFrom([]string{"create", "create", "changea", "changea", "changen", "delete", "reopen"}).Draw(rt, "k"),
 				ID: rapid.SampledFrom([]string{"1", "2", "3", "4"}).Draw(rt, "id"),
-				A:  rapid.SampledFrom([]string{"a", "b", "ab", "aa", "ba", "", "a~"}).Draw(rt, "a"),
+				A:  rapid.SampledFrom([]string{"a", "b", "ab", "aa", "ba", "", "a~", "a\x00b", "a\x00", "\x00"}).Draw(rt, "a"),
 				N:  rapid.IntRange(0, 5).Draw(rt, "n"),
 			})
 		}
